@@ -516,6 +516,17 @@ class Executor:
                 raise PyRaise("ValueError", "unpack")
             for t, x in zip(target.elts, vals):
                 self.assign(t.value if isinstance(t, ast.Starred) else t, x, env, pf)
+        elif isinstance(target, ast.Attribute):
+            base = self.eval(target.value, env, pf)
+            if not isinstance(base, dict):
+                raise Unsupported("attribute assignment on %r" % (base,))
+            base[target.attr] = v
+        elif isinstance(target, ast.Subscript):
+            base = self.eval(target.value, env, pf)
+            key = self.eval(target.slice, env, pf)
+            if not isinstance(base, dict) or not isinstance(key, str):
+                raise Unsupported("item assignment on %r" % (base,))
+            base[key.upper() if base.get("__caseless__") else key] = v
         else:
             raise Unsupported("assignment target %s" % type(target).__name__)
 
@@ -634,6 +645,14 @@ class Executor:
 
     def e_ListComp(self, node, env, pf):
         return self._comprehension(node, env, pf)
+
+    def e_Dict(self, node, env, pf):
+        out = {}
+        for k, v in zip(node.keys, node.values):
+            if k is None:
+                raise Unsupported("dict unpacking")
+            out[self.eval(k, env, pf)] = self.eval(v, env, pf)
+        return out
 
     def e_IfExp(self, node, env, pf):
         if self.truth(self.eval(node.test, env, pf)):
@@ -804,6 +823,10 @@ class Executor:
         return z3.And(*conds)
 
     def contains(self, container, item):
+        if isinstance(container, dict):
+            if not isinstance(item, str):
+                raise Unsupported("dict membership of %r" % (item,))
+            return (item.upper() if container.get("__caseless__") else item) in container
         if isinstance(container, (tuple, list)):
             res = []
             for c in container:
@@ -884,6 +907,13 @@ class Executor:
     def e_Subscript(self, node, env, pf):
         v = self.eval(node.value, env, pf)
         sl = node.slice
+        if isinstance(v, dict) and not isinstance(sl, ast.Slice):
+            key = self.eval(sl, env, pf)
+            if isinstance(key, str):
+                key = key.upper() if v.get("__caseless__") else key
+                if key not in v:
+                    raise PyRaise("KeyError", key)
+                return v[key]
         if isinstance(sl, ast.Slice):
             lo = self.eval(sl.lower, env, pf) if sl.lower is not None else None
             hi = self.eval(sl.upper, env, pf) if sl.upper is not None else None
@@ -1015,6 +1045,8 @@ class Executor:
             return any(self.isinstance_(v, c) for c in cls)
         if cls == ("builtin", "str"):
             return isinstance(v, (str, SStr, Rope))
+        if cls == ("builtin", "tuple"):
+            return isinstance(v, tuple)
         if cls == ("builtin", "int"):
             return isinstance(v, int) or (is_sym(v) and z3.is_int(v))
         if cls == ("model", "timedelta"):
@@ -1177,6 +1209,19 @@ class Executor:
             return SMatch(groups)
         if isinstance(obj, SMatch) and name == "groups":
             return obj.groups()
+        if isinstance(obj, dict) and name in ("update", "get", "items", "keys"):
+            caseless = obj.get("__caseless__")
+            if name == "update":
+                for k, v in dict(args[0]).items():
+                    if k != "__caseless__":
+                        obj[k.upper() if caseless else k] = v
+                return None
+            if name == "get":
+                k = args[0].upper() if caseless else args[0]
+                return obj.get(k, args[1] if len(args) > 1 else None)
+            if name == "items":
+                return [(k, v) for k, v in obj.items() if k != "__caseless__"]
+            return [k for k in obj if k != "__caseless__"]
         if type(obj) is list and name == "append":
             obj.append(args[0])
             return None
